@@ -30,7 +30,9 @@ RULE = (
     "caller-supplied (fsspec or dvc_data stat) or freshly read info, on the local or a memory file system, "
     "for md5, md5-dos2unix, sha256; files may be symlinks to regular files outside the staged directory (write / "
     "touch / replace then act on the link's target); staging routes also run with pool hashing forced (large-file "
-    "threshold 0, checksum_jobs 2 or 4, reads delayed so that earlier-submitted files complete later). Non-trivial = at least one cache hit was served after at least one "
+    "threshold 0, checksum_jobs 2 or 4, reads delayed so that earlier-submitted files complete later) and with a "
+    "writer that rewrites / replaces one of the query's files between its hashing and the save of the state rows, "
+    "followed by plain lookups. Non-trivial = at least one cache hit was served after at least one "
     "mutation of the same file, or a foreign row / batch over 999 / index carry-over was involved."
 )
 ASSUMPTIONS = [
@@ -47,6 +49,10 @@ ASSUMPTIONS = [
     "index level: flat directory of regular non-executable files (or symlinks to such) on the local file system",
     "stat information follows symbolic links (as fsutils._localfs_info and LocalFileSystem.info(str) do): the token "
     "of a path is the (inode, mtime, size) of the file it resolves to; the staging walk supplies exactly that",
+    "a staging query records its rows under the stat information collected by the walk BEFORE the hashing "
+    "(token_at_walk, Model get_hashes_during AtWalk): a write striking between the hashing and state.save_many is "
+    "then equivalent to a write after the query (C13_inquery_write_safe); the harness strikes exactly there "
+    "(wrapping the hashing worker's hash_file) and judges all later lookups against the current bytes",
     "hashing is per path: _get_hashes attaches to every path the digest of that path's bytes, whatever the order in "
     "which pool workers are submitted and complete (the model has no pairing of a submission list with a result list)",
     "translated units (Gen/State.v: _checksum field list, State._get, HASH_VERSION, the non-local guards, "
@@ -511,6 +517,10 @@ class Runner:
             fids = existing
         if not fids:
             return f"QGetHashes {cbool(local)} [] {cbytes(alg)} []", vL([vN(4), vL([])])
+        if op.get("during") is not None:
+            # each file is read once in a query with an in-query writer (a path listed twice would be read before
+            # AND after the write: either version is a legitimate answer, nothing to compare)
+            fids = list(dict.fromkeys(fids))
         paths = [self.path([f]) for f in fids]
         # the stat information a caller (the directory walk) supplies: taken now
         if local:
@@ -525,6 +535,20 @@ class Runner:
             infos = {p: self.mem.info(p) for p in paths}
             iterms = [f"([{f}], T 0 0 0)" for f in dict.fromkeys(fids)]
         got = {}
+        # a write DURING the query: right after the victim has been read for hashing (the hashing worker's
+        # hash_file returned) and before _get_hashes hands the rows to state.save_many, the victim is rewritten
+        # (same inode, new mtime) or replaced (new inode).  The answers of THIS query are judged against the bytes
+        # as they were when it started; everything afterwards against the current bytes.
+        truth_at = dict(truth)
+        during = op.get("during") if (local and route != "build_file") else None
+        if during is not None and during["f"] not in fids:
+            during = None
+        fired = []
+
+        def fire():
+            edit = self.op_replace if during["how"] == "replace" else self.op_write
+            fired.append(edit({"f": during["f"], "c": during["c"], "mt": "tick"})[0])
+
         # pool hashing with out-of-order completion: every file with size >= 1 counts as "large"
         # (threshold patched to 0, as harness/props/c03.py does), checksum_jobs in {2, 4}, and the read of the
         # earlier-submitted files is delayed so that they finish last.  The model hashes per path: the answer
@@ -546,13 +570,20 @@ class Runner:
 
         def p_hash_file(path_, *a, **kw):
             d = delays.get(path_)
-            if d and kw.get("state") is None and len(a) < 3:
+            worker = kw.get("state") is None and len(a) < 3      # the call of _hash_files' worker
+            if d and worker:
                 pooled[0] += 1
                 time.sleep(d)
-            return o_hash(path_, *a, **kw)
+            res = o_hash(path_, *a, **kw)
+            if during is not None and worker and not fired and path_ == self.path([during["f"]]):
+                fire()
+                self.flags.add("inquery-write:between-hash-and-save")
+            return res
 
         if pool:
-            bmod._get_hashes, bmod.hash_file = p_get_hashes, p_hash_file
+            bmod._get_hashes = p_get_hashes
+        if pool or during is not None:
+            bmod.hash_file = p_hash_file
         kwj = {"checksum_jobs": jobs} if pool else {}
         try:
             if route == "direct":
@@ -573,6 +604,10 @@ class Runner:
             self.flags.add("staging:pool")
             if pooled[0] >= 2:
                 self.flags.add("staging:pool>=2-uncached")
+        if during is not None and not fired:
+            fire()      # the victim was served from the cache (not read): the write strikes right after the query
+            self.flags.add("inquery-write:after-query")
+        truth = truth_at
         if sorted(got) != sorted(set(fids)):
             self.fail("C13:stale:build", f"{route}: answered for {sorted(got)}, files are {sorted(set(fids))}")
         vals = []
@@ -586,6 +621,10 @@ class Runner:
                 self.seen.setdefault(f, set()).add(self.observe(f)[0])
                 self.saved_once.add(f)
         self.flags.add("staging:" + route)
+        if during is not None:
+            wterm = fired[0].split(" ", 1)[1]       # "[f] <bytes> (T ino mtime size)" of the Write / Replace
+            return (f"QGetHashesW {cbool(local)} {clist([f'[{f}]' for f in fids])} {cbytes(alg)} {clist(iterms)} {wterm}",
+                    vL([vN(4), vL(vals)]))
         return (f"QGetHashes {cbool(local)} {clist([f'[{f}]' for f in fids])} {cbytes(alg)} {clist(iterms)}",
                 vL([vN(4), vL(vals)]))
 
@@ -751,6 +790,13 @@ def gen_history(ctx, big=None):  # noqa: C901, PLR0912, PLR0915
                  "dry": rng.random() < 0.7}
             if route != "build_file" and rng.random() < 0.3:
                 q["pool"] = {"jobs": rng.choice([2, 4])}     # pool hashing, out-of-order completion
+            cands = sorted(alive & set(q["fs"])) if route == "direct" else sorted(alive)
+            if route != "build_file" and cands and rng.random() < 0.25:
+                v = rng.choice(cands)
+                c = content(v, same_len=rng.random() < 0.8)
+                cur[v] = c
+                q["dry"] = True
+                q["during"] = {"f": v, "c": c, "how": rng.choice(["write", "write", "replace"])}
             return q
         if r < 0.78:
             return {"op": "ibuild", "s": rng.choice("AB")}
@@ -832,7 +878,19 @@ def gen_history(ctx, big=None):  # noqa: C901, PLR0912, PLR0915
         elif r < 0.46:
             ops.append(mutation())
         else:
-            ops.append(query())
+            q = query()
+            if q.get("during"):
+                # make the victim uncached (so that it is read during the query), strike, then look it up plainly
+                v = q["during"]["f"]
+                if rng.random() < 0.75:
+                    ops.append({"op": "touch", "f": v})
+                ops.append(q)
+                ops.append(rng.choice([{"op": "get", "p": [v], "info": rng.choice([None, "fsspec", "dvc"])},
+                                       {"op": "hash_file", "p": [v], "alg": q["alg"], "info": None},
+                                       {"op": "get_many", "items": [["p", [v]]], "infos": []},
+                                       {"op": "get_hashes", "route": "build_dir", "alg": "md5", "fs": [], "dry": True}]))
+            else:
+                ops.append(q)
     if big is not None:
         # one batch across the SQL parameter boundary, with known paths, duplicates and unknown ones
         items = []
@@ -926,6 +984,28 @@ CORPUS = [
         {"op": "replace", "f": 0, "c": 3, "mt": "tick"},          # the link itself replaced by a regular file
         {"op": "get_hashes", "route": "build_dir", "alg": "md5", "fs": [], "dry": True},
         {"op": "get", "p": [0], "info": "fsspec"}]},
+    # a writer striking DURING a staging query (after the victim was hashed, before the rows are saved), through
+    # every staging route; then undisturbed warm-cache lookups must follow the CURRENT bytes
+    {"nfiles": 2, "ops": [
+        {"op": "create", "f": 0, "c": 1}, {"op": "create", "f": 1, "c": 9},
+        {"op": "get_hashes", "route": "build_dir", "alg": "md5", "fs": [], "dry": True,
+         "during": {"f": 0, "c": 2, "how": "write"}},            # same length, same inode, new mtime
+        {"op": "get", "p": [0], "info": None}, {"op": "hash_file", "p": [0], "alg": "md5", "info": None},
+        {"op": "get_many", "items": [["p", [0]], ["p", [1]]], "infos": []},
+        {"op": "get_hashes", "route": "build_dir", "alg": "md5", "fs": [], "dry": True},
+        {"op": "touch", "f": 1},
+        {"op": "get_hashes", "route": "direct", "alg": "md5", "fs": [1, 0],
+         "during": {"f": 1, "c": 10, "how": "replace"}},         # same length, new inode
+        {"op": "get", "p": [1], "info": "dvc"}, {"op": "get_hashes", "route": "build_entries", "alg": "md5", "fs": []},
+        {"op": "touch", "f": 0}, {"op": "touch", "f": 1},
+        {"op": "get_hashes", "route": "build_entries", "alg": "md5", "fs": [],
+         "during": {"f": 0, "c": 3, "how": "write"}},            # new length
+        {"op": "get_many", "items": [["p", [0]], ["p", [1]]], "infos": [0]},
+        {"op": "hash_file", "p": [0], "alg": "md5", "info": "fsspec"},
+        {"op": "get_hashes", "route": "direct", "alg": "md5", "fs": [0, 1]},
+        {"op": "get_hashes", "route": "build_dir", "alg": "md5", "fs": [], "dry": True,
+         "during": {"f": 1, "c": 9, "how": "write"}},            # victim cached: the write strikes after the query
+        {"op": "get", "p": [1], "info": None}, {"op": "hash_file", "p": [1], "alg": "md5", "info": None}]},
     # foreign rows
     {"nfiles": 1, "ops": [
         {"op": "create", "f": 0, "c": 5},
@@ -1132,7 +1212,7 @@ def run_history(ctx, case):
 
 
 def nontrivial(flags):
-    return bool(flags & {"hit-after-mutation", "batch>999", "index-update-copied", "carried-hash-current",
+    return bool(flags & {"hit-after-mutation", "inquery-write:between-hash-and-save", "batch>999", "index-update-copied", "carried-hash-current",
                          "staging:pool>=2-uncached", "symlink-target-rewritten", "symlink-target-replaced"}
                 or any(f.startswith("foreign:") for f in flags))
 
